@@ -19,7 +19,7 @@ pub fn check() -> Check {
         floor_thorough: 1_100_000,
         rule: "Exhaustive over all 1,112,031 scalar values >= U+0020 except U+007F. (a) for each scalar, alone and between neighbours of every encoded length ({none, a, e-acute, bitcoin sign, G-clef} on each side, 25 contexts): \
                encode_utf8, char_pop_front, char_count, char_byte_index at every index, common_prefix_len against a sibling and the input decoder are compared with std's UTF-8 functions. \
-               (b) through a whole Cli: typed between neighbours, moved over with Left/Right, deleted with Backspace, retyped, submitted inside a command name, as an argument and in a short-option cluster, recalled with Up, edited (Backspace, retype, Left, Right) and resubmitted, recalled again next to its own proper prefix and its own proper suffix, redrawn through set_prompt and left alone by Tab while the cursor stands left of it (terminal emulator), and rendered in `unexpected option: -X` by a derived command; echo bytes equal typed bytes. \
+               (b) through a whole Cli: typed between neighbours, moved over with Left/Right, deleted with Backspace, retyped, submitted inside a command name, as an argument and in a short-option cluster, recalled with Up, edited (Backspace, retype, Left, Right) and resubmitted, recalled again next to its own proper prefix and its own proper suffix, submitted alone between a CR-ended line and its own LF, redrawn through set_prompt and left alone by Tab while the cursor stands left of it (terminal emulator), and rendered in `unexpected option: -X` by a derived command; echo bytes equal typed bytes. \
                (c) a derived command whose short names are 2-, 3- and 4-octet characters in every spelling the macros take (generated from a field identifier, char literal, string literal): alone, clustered, next to each other, and the look-alike whose code is the first octet must be refused. \
                Quick runs (b) for every scalar in five of the 25 neighbour contexts (one left neighbour, rotating with the scalar and the seed, with every right neighbour) and in all 25 for encoded-length boundaries and the special characters; thorough runs all 25 contexts for every scalar. \
                Every scalar is non-trivial; distinct by scalar value (counted once per scalar that passed).",
@@ -288,6 +288,29 @@ fn check_cli(c: char, l: &str, r: &str) -> Result<(), (String, String)> {
             type_str(&mut s, "\x1b[A").map_err(e)?;
             if s.editor().bytes != want.as_bytes() {
                 return Err((format!("after submitting {:?} and then its suffix {:?}, Up recalls {:?}", line, suffix, want), format!("{:?}", String::from_utf8_lossy(&s.editor().bytes))));
+            }
+        }
+    }
+    // a line made of nothing but X, between a line ended by CR and its own LF: the octets of X stand between the two
+    // terminators, so they are two Enters (a decoder that remembers the CR across X swallows the LF)
+    if c as u32 >= 0x80 && !c.is_whitespace() {
+        for _ in 0..5 {
+            if s.editor().bytes.is_empty() {
+                break;
+            }
+            type_str(&mut s, "\x1b[B").map_err(e)?;
+        }
+        if s.editor().bytes.is_empty() {
+            type_str(&mut s, "q\r").map_err(e)?;
+            let before = s.proc_.log.len();
+            type_str(&mut s, &c.to_string()).map_err(e)?;
+            type_str(&mut s, "\n").map_err(e)?;
+            let log = &s.proc_.log;
+            if log.len() != before + 1 || log[before].name != c.to_string().as_bytes() {
+                return Err((
+                    format!("`q` CR, then {:?} LF: the second line is submitted on its own (one more invocation, with name {:?})", c, c.to_string()),
+                    format!("{} more invocation(s), last {:?}", log.len() - before, log.last()),
+                ));
             }
         }
     }
